@@ -10,25 +10,31 @@ import time
 import typing
 
 from tools.lib import core
+from tools.translators import gen as _gen  # noqa: F401  (must be imported first: it discovers gen_c08)
+from tools.translators import gen_c08
 
 PROP = 'C08'
 
 MANIFEST = dict(
     technique='Coq proof about a model of the nnvg runner whose control structure is re-translated from cli/runners.py on every run '
               '(decidable mode-consistency conditions discharged by computation over all flag combinations, generic theorems by '
-              'induction over traces and item lists); model vs. real nnvg correspondence in all four modes with file-system snapshots '
-              'and influence probes',
-    text='Theorems in coq/theories/Properties/C08.v for ALL configurations, inputs and file systems: list_outputs_exact (listing = '
-         'files a successful real run creates from an empty tree), list_modes_pure (list-outputs/list-inputs/list-configuration/dry-run '
-         'leave every file system unchanged), list_inputs_complete_partial (every influencing template and DSDL source is listed away '
-         'from three triggers) with three _refuted witnesses (F-LIST-INPUTS-LOOKUP, F-LIST-INPUTS-NONJ2, F-LIST-INPUTS-SUPTPL), '
-         'rejected_does_nothing. Tie: translator tools/translators/gen_c08.py (runner statement structure and call arguments, '
-         '_should_generate_support, argparse rejection, namespace-type decision, SupportGenerator.get_templates, dry-run guards of the '
-         'leaf functions, per-language package data) + vm_compute evaluation of the model against real nnvg runs on random namespaces.',
-    note='Trusted: Coq kernel; the fail-closed translator gen_c08.py; the hand model of what the generators enumerate (namespace index, '
-         'output paths, loader chains, support resources) is validated by correspondence, not verified; influence of templates is '
-         'measured (get_source trace) and spot-checked by editing inputs. Not covered: names that need stropping, --list-configuration '
-         'combined with other modes, directories (checked by snapshots only), rendering errors.',
+              'induction over traces, item lists and the template reference closure); fail-closed effect scan of the whole '
+              'listing/dry-run call path; model vs. real nnvg correspondence in all modes with file-system snapshots and influence probes',
+    text='Theorems in coq/theories/Properties/C08.v for ALL configurations, inputs and file systems (directories, files with content '
+         'and mode): list_outputs_exact (listing = files a successful real run creates from an empty tree; created directories are '
+         'parents of listed files), list_modes_pure (list-outputs/list-inputs/list-configuration/dry-run leave every file system '
+         'unchanged; rests on the dry-run guards of the leaves and on the effect scan of every function of the call path), '
+         'list_inputs_complete (every template of the include/import/extends closure DERIVED in the model from the regenerated '
+         'template reference graph, every copied support resource and every DSDL file of the dependency closure is listed; '
+         'configuration files are excluded explicitly), its _partial form over effective triggers, listed_templates_are_servable_paths, '
+         'rejected_does_nothing. History of the three repaired --list-inputs findings: coq/theories/History/C08_history.v.',
+    note='Trusted: Coq kernel; the fail-closed translator gen_c08.py (statement structure, call arguments, effect scan with pinned '
+         'callee allow-sets, shape pins of the enumeration functions, template reference scanner); the hand model of what the '
+         'generators enumerate is validated by correspondence, not verified; the derived influence set is checked to cover the '
+         'measured template loads (get_source trace) and pydsdl dependencies, and spot-checked by editing inputs. Not covered: names '
+         'that need stropping, --list-configuration combined with another listing mode, rendering errors. properties.yaml and '
+         '--configuration files influence the output and are not listed by --list-inputs: outside the property wording '
+         '("every template and every DSDL file"), stated as an exclusion in the theorem and counted in the evidence.',
     design='§5 C08')
 
 FRAGMENT = os.path.join(core.VERIF, 'known_findings.d', 'C08.json')
@@ -40,6 +46,7 @@ CLS_OF_STEM = {'StructureType': 'CStructure', 'UnionType': 'CUnion', 'DelimitedT
 KIND_COQ = {'structure': 'KStructure', 'union': 'KUnion', 'delimited': 'KDelimited', 'service': 'KService'}
 SUPPORT_TPL = {'c': ['serialization.j2'], 'cpp': ['serialization.j2'], 'py': ['nunavut_support.j2'], 'html': []}
 ANY_J2 = 'generated for {{ T.full_name }}\n'
+CONFIG_YAML = 'nunavut.lang.%s:\n  options:\n    enable_serialization_asserts: true\n'
 # nested template directories with the same basename in several sub-directories, all loaded by relative path from the
 # language's base template (include, include from an included file, macro import)
 BASE_TPL = {'c': 'base.j2', 'cpp': 'base.j2', 'py': 'base.j2', 'html': 'type_base.j2'}
@@ -142,7 +149,9 @@ def make_case(rng, idx: int, forced: typing.Optional[dict] = None) -> dict:
     roots, lookups = f.get('types') or gen_namespace(rng, with_lookup, 'abcdefgh'[idx % 8])
     return {'idx': idx, 'lang': lang, 'mode': mode, 'omit': omit, 'ns_types': ns_types,
             'ext': f.get('ext', rng.choice([None, None, '.xx', 'gen'])), 'stem': f.get('stem', rng.choice([None, None, 'nsx'])),
-            'tpl': tpl, 'sup': sup, 'roots': roots, 'lookups': lookups, 'probes': f.get('probes', 'auto'), 'tag': f.get('tag', 'random')}
+            'tpl': tpl, 'sup': sup, 'roots': roots, 'lookups': lookups, 'probes': f.get('probes', 'auto'), 'tag': f.get('tag', 'random'),
+            'now': f.get('now', rng.random() < 0.25), 'embed': f.get('embed', rng.random() < 0.25), 'lc': f.get('lc', rng.random() < 0.2),
+            'config': f.get('config', lang in ('c', 'cpp') and rng.random() < 0.3)}
 
 
 def job_of(case: dict, work: str, rng) -> dict:
@@ -154,7 +163,14 @@ def job_of(case: dict, work: str, rng) -> dict:
     lang = case['lang']
     copies, inventory = [], []
     appends: typing.Dict[str, str] = {}
-    args = ['-l', lang] + (['-Xlang'] if lang in ('cpp', 'html') else []) + ['--generate-support', case['mode']]
+    args = (['--configuration', 'cfg.yaml'] if case.get('config') else []) + ['-l', lang] + (['-Xlang'] if lang in ('cpp', 'html') else []) \
+        + ['--generate-support', case['mode']]
+    if case.get('config'):
+        files['cfg.yaml'] = CONFIG_YAML % lang
+    if case.get('now'):
+        args.append('--no-overwrite')
+    if case.get('embed'):
+        args.append('--embed-auditing-info')
     if case['omit']:
         args.append('--omit-serialization-support')
     if case['ns_types']:
@@ -210,6 +226,8 @@ def job_of(case: dict, work: str, rng) -> dict:
         if case['sup'] == 'other':
             cands.append({'id': 'sup:other', 'path': rng.choice(['sup/other.j2', 'sup/a/part.j2', 'sup/b/part.j2']), 'append': 'probe\n'})
         rng.shuffle(cands)
+        if case.get('config'):
+            cands.insert(0, {'id': 'config', 'path': 'cfg.yaml', 'text': (CONFIG_YAML % lang) + '    target_endianness: little\n'})
         probes = cands[:case.get('n_probes', 2)]
         if case['tpl'] == 'copy+nested':      # every nested file is edited once
             nested = [dict(p) for p in NESTED_PROBES]
@@ -217,7 +235,7 @@ def job_of(case: dict, work: str, rng) -> dict:
     elif isinstance(case['probes'], list):
         probes = case['probes']
     return {'work': work, 'files': files, 'appends': appends, 'copies': copies, 'args': args, 'root': root_dir, 'lookups': lk_dirs, 'probes': probes,
-            'inventory': inventory, 'want_trace': True}
+            'inventory': inventory, 'want_trace': True, 'list_configuration': bool(case.get('lc'))}
 
 
 def run_case(job: dict) -> dict:
@@ -251,8 +269,10 @@ def coq_tdir(work: str, d: str, inv: typing.List[str]) -> str:
         stem = os.path.splitext(os.path.basename(name))[0]
         cls = CLS_OF_STEM.get(stem) if (j2 and '/' not in name) else None
         py = os.path.splitext(name)[1] in ('.py', '.pyc', '.pyo') or '__pycache__' in name.split('/')
-        items.append('{| tf_name := %s; tf_path := %s; tf_j2 := %s; tf_py := %s; tf_cls := %s |}' % (
-            s2c(name), coq_path('%s/%s/%s' % (work, d, name)), coq_bool(j2), coq_bool(py), ('Some %s' % cls) if cls else 'None'))
+        refs, dyn = gen_c08.scan_refs_file('%s/%s/%s' % (work, d, name))
+        items.append('{| tf_name := %s; tf_path := %s; tf_j2 := %s; tf_py := %s; tf_cls := %s; tf_refs := [%s]; tf_dyn := %s |}' % (
+            s2c(name), coq_path('%s/%s/%s' % (work, d, name)), coq_bool(j2), coq_bool(py), ('Some %s' % cls) if cls else 'None',
+            '; '.join(s2c(r) for r in refs), coq_bool(dyn)))
     return 'Some [%s]' % '; '.join(items)
 
 
@@ -264,22 +284,19 @@ def coq_case(case: dict, res: dict) -> str:
         return ('{| t_key := %d; t_ns := [%s]; t_stem := %s; t_kind := %s; t_src := %s; t_deps := [%s] |}' % (
             t['key'], '; '.join(s2c(x) for x in t['ns']), s2c('%s_%d_%d' % (t['name'], t['major'], t['minor'])), KIND_COQ[t['kind']],
             coq_path(work + '/' + type_rel(t, base)), '; '.join(str(d['key']) for d in t['dep_types'])))
-    loaded = []
-    tr = res.get('trace') or {}
-    for name, _ in (tr.get('loaded') or {}).get('types', []):
-        if name not in loaded:
-            loaded.append(name)
     cfg = ('{| c_lang := lang_%s; c_flags := {| f_support := %s; f_omit := %s; f_ns := %s; f_dry := false; f_lo := false; f_li := false; '
-           'f_lc := false; f_now := false; f_embed := false |}; c_ext := %s; c_stem := %s; c_templates := %s; c_support_templates := %s; '
-           'c_outdir := [%s] |}' % (
+           'f_lc := false; f_now := %s; f_embed := %s |}; c_ext := %s; c_stem := %s; c_templates := %s; c_support_templates := %s; '
+           'c_config_files := [%s]; c_outdir := [%s] |}' % (
                case['lang'], MODE_COQ[case['mode']], coq_bool(case['omit']), coq_bool(case['ns_types']),
+               coq_bool(bool(case.get('now'))), coq_bool(bool(case.get('embed'))),
                'None' if case['ext'] is None else 'Some ' + s2c(norm_ext(case['ext'])),
                'None' if case['stem'] is None else 'Some ' + s2c(case['stem']),
                coq_tdir(work, 'tpl', inv.get('tpl', [])) if case['tpl'] else 'None',
-               coq_tdir(work, 'sup', inv.get('sup', [])) if case['sup'] else 'None', s2c('out')))
-    inp = '{| i_roots := [%s]; i_lookup := [%s]; i_root_dir := %s; i_loaded_types := [%s] |}' % (
+               coq_tdir(work, 'sup', inv.get('sup', [])) if case['sup'] else 'None',
+               coq_path(work + '/cfg.yaml') if case.get('config') else '', s2c('out')))
+    inp = '{| i_roots := [%s]; i_lookup := [%s]; i_root_dir := %s |}' % (
         '; '.join(dtype(t, 'ns') for t in case['roots']), '; '.join(dtype(t, 'lk') for t in case['lookups']),
-        coq_path(work + '/ns/' + case['roots'][0]['ns'][0]), '; '.join(s2c(n) for n in loaded))
+        coq_path(work + '/ns/' + case['roots'][0]['ns'][0]))
     return 'Eval vm_compute in (report the_code\n  %s\n  %s).\n' % (cfg, inp)
 
 
@@ -307,13 +324,14 @@ def run_model(cases: typing.List[dict], results: typing.List[dict], scratch: str
         for i, body in zip(shards[k], found):
             text = ''.join(chr(int(x)) for x in re.findall(r'\d+', body))
             ln = text.split('\n')
-            if len(ln) != 9:
+            if len(ln) != 10:
                 return 'model report has %d lines' % len(ln)
             sp = lambda s: [x for x in s.split(';') if x != '']
             outs[i] = {'r_real': int(ln[0]), 'r_lo': int(ln[1]), 'lo': sp(ln[2]), 'r_li': int(ln[3]), 'li': sp(ln[4]), 'r_dry': int(ln[5]),
                        'created': sp(ln[6]), 'influence': sp(ln[7]), 'trig_lookup': ln[8][0] == '1', 'trig_nonj2': ln[8][1] == '1',
                        'trig_sup': ln[8][2] == '1', 'consistent': ln[8][3] == '1', 'fix_lookup': ln[8][4] == '1',
-                       'fix_nonj2': ln[8][5] == '1', 'fix_suptpl': ln[8][6] == '1', 'trig_py': ln[8][7] == '1'}
+                       'fix_nonj2': ln[8][5] == '1', 'fix_suptpl': ln[8][6] == '1', 'trig_py': ln[8][7] == '1',
+                       'path_pure': ln[8][8] == '1', 'trig_sup_refs': ln[8][9] == '1', 'r_rerun': int(ln[8][10]), 'dirs': sp(ln[9])}
         return ''
     with concurrent.futures.ThreadPoolExecutor(max_workers=6) as ex:
         errs = [e for e in ex.map(one, range(6)) if e]
@@ -380,6 +398,8 @@ def known_entries(chk: core.Check) -> None:
 
 
 def category(path: str, work: str, root_dir: str) -> str:
+    if path.endswith(('.yaml', '.yml')):
+        return 'config'       # outside the property's wording ("every template and every DSDL file"): counted, not a violation
     if path.endswith('.dsdl') and not path.startswith(root_dir + '/'):
         return 'F-LIST-INPUTS-LOOKUP'
     if path.startswith(work + '/sup/'):
@@ -392,7 +412,7 @@ def category(path: str, work: str, root_dir: str) -> str:
 # ---------------------------------------------------------------------------------------------
 def main(chk: core.Check, replay: typing.Optional[str] = None) -> int:
     known_entries(chk)
-    n_random = 39 if chk.tier == 'quick' else 300
+    n_random = 34 if chk.tier == 'quick' else 300
     rng = chk.rng
     cases = [make_case(rng, i, forced=w) for i, w in enumerate(witness_cases())]
     if replay:
@@ -462,7 +482,9 @@ def main(chk: core.Check, replay: typing.Optional[str] = None) -> int:
     stats = {'cases': len(cases), 'rejected': 0, 'failed_runs': 0, 'successful': 0, 'probes': 0, 'probes_changed': 0,
              'probes_unlisted_changed_known': 0, 'known_finding_instances': 0, 'model_compared': 0, 'with_lookup_deps': 0,
              'custom_templates': 0, 'custom_support_templates': 0, 'ns_files_listed': 0, 'support_files_listed': 0,
-             'ext_override': 0, 'stem_override': 0, 'by_lang': {}, 'by_mode': {}, 'influential_inputs_checked': 0}
+             'ext_override': 0, 'stem_override': 0, 'by_lang': {}, 'by_mode': {}, 'influential_inputs_checked': 0,
+             'config_inputs_influential_and_unlisted': 0, 'derived_influence_total': 0, 'derived_influence_not_observed': 0,
+             'rerun_refused_no_overwrite': 0, 'list_configuration_runs': 0, 'no_overwrite': 0, 'embed_auditing_info': 0, 'configuration_file': 0}
     distinct = set()
     bad: typing.List[dict] = []        # property violated by the implementation (failing input)
     mism: typing.List[dict] = []       # model and implementation disagree
@@ -470,7 +492,7 @@ def main(chk: core.Check, replay: typing.Optional[str] = None) -> int:
 
     for i, c in enumerate(cases):
         r = results[i]
-        desc = {k: c[k] for k in ('idx', 'lang', 'mode', 'omit', 'ns_types', 'ext', 'stem', 'tpl', 'sup', 'tag')}
+        desc = {k: c.get(k) for k in ('idx', 'lang', 'mode', 'omit', 'ns_types', 'ext', 'stem', 'tpl', 'sup', 'tag', 'now', 'embed', 'lc', 'config')}
         desc['n_roots'], desc['n_lookup'] = len(c['roots']), len(c['lookups'])
         if i % 6 == 0 and len(samples) < 12:
             samples.append(desc)
@@ -484,6 +506,9 @@ def main(chk: core.Check, replay: typing.Optional[str] = None) -> int:
         stats['custom_support_templates'] += bool(c['sup'])
         stats['ext_override'] += c['ext'] is not None
         stats['stem_override'] += c['stem'] is not None
+        stats['no_overwrite'] += bool(c.get('now'))
+        stats['embed_auditing_info'] += bool(c.get('embed'))
+        stats['configuration_file'] += bool(c.get('config'))
         md = r['modes']
         work = r['work']
         root_dir = work + '/ns/' + c['roots'][0]['ns'][0]
@@ -541,6 +566,16 @@ def main(chk: core.Check, replay: typing.Optional[str] = None) -> int:
         if set(md['real']['created_dirs']) != exp_dirs:
             fail('directories created by the real run are not exactly the parents of the created files',
                  dirs=md['real']['created_dirs'], expected=sorted(exp_dirs))
+        rr0 = md.get('rerun')
+        if rr0 is not None and rr0['files_changed']:
+            fail('a second real run changed the set of files', rerun=rr0)
+        if rr0 is not None and rr0['rc'] != 0 and not c.get('now'):
+            fail('a second real run over existing output fails without --no-overwrite', rerun=rr0)
+        lcm = md.get('list_configuration')
+        if lcm is not None:
+            stats['list_configuration_runs'] += 1
+            if lcm['fs_diff'] or any(x != 0 for x in lcm['rc']):
+                fail('--list-configuration changed the file system or failed', lc=lcm)
         if md['dry_run']['rc'] != 0 or md['list_inputs']['rc'] != 0:
             fail('real run succeeds but dry-run/list-inputs fails', rcs=rcs)
         ns_stem = c['stem'] or {'c': '_namespace_', 'cpp': '_namespace_', 'py': '__init__', 'html': 'index'}[c['lang']]
@@ -576,12 +611,17 @@ def main(chk: core.Check, replay: typing.Optional[str] = None) -> int:
                 stats['probes_changed'] += 1
                 if pr['path'] not in listed_in:
                     cat = category(pr['path'], work, root_dir)
-                    if cat in live and live[cat] and chk.is_known(cat) and pr['path'] in measured:
+                    if cat == 'config':
+                        stats['config_inputs_influential_and_unlisted'] += 1
+                    elif cat in live and live[cat] and chk.is_known(cat) and pr['path'] in measured:
                         stats['probes_unlisted_changed_known'] += 1
                     else:
                         fail('editing an input that --list-inputs does not name changed the generated output', probe=pr, category=cat)
-                if pr['path'] not in measured:
+                if pr['path'] not in measured and category(pr['path'], work, root_dir) != 'config':
                     mism.append({'case': c, 'what': 'an edited input changed the output but is not in the measured influence set', 'probe': pr})
+                if m is not None and pr['path'] not in m['influence'] and category(pr['path'], work, root_dir) != 'config':
+                    mism.append({'case': c, 'what': 'an edited input changed the output but is not in the influence set the model derives',
+                                 'probe': pr})
         # ---- model vs. implementation ----
         if m is not None:
             stats['model_compared'] += 1
@@ -592,14 +632,27 @@ def main(chk: core.Check, replay: typing.Optional[str] = None) -> int:
                 mism.append({'case': c, 'what': 'output listing / created files: model vs implementation',
                              'model_only': sorted((set(m['lo']) | set(m['created'])) - set(listed_out) - created),
                              'impl_only': sorted((set(listed_out) | created) - set(m['lo']) - set(m['created']))})
-            quirk_off = ((m['trig_lookup'] and not live.get('F-LIST-INPUTS-LOOKUP', True)) or (m['trig_nonj2'] and not live.get('F-LIST-INPUTS-NONJ2', True))
-                         or (m['trig_sup'] and not live.get('F-LIST-INPUTS-SUPTPL', True)))
+            # a finding that no longer reproduces although the translator does not recognise its repair: the quirk model is off
+            quirk_off = ((m['trig_lookup'] and not m['fix_lookup'] and not live.get('F-LIST-INPUTS-LOOKUP', True))
+                         or (m['trig_nonj2'] and not m['fix_nonj2'] and not live.get('F-LIST-INPUTS-NONJ2', True))
+                         or (m['trig_sup'] and not m['fix_suptpl'] and not live.get('F-LIST-INPUTS-SUPTPL', True)))
             if not quirk_off and set(m['li']) != listed_in:
                 mism.append({'case': c, 'what': 'input listing: model vs implementation', 'model_only': sorted(set(m['li']) - listed_in),
                              'impl_only': sorted(listed_in - set(m['li']))})
-            if set(m['influence']) != measured:
-                mism.append({'case': c, 'what': 'influence set: model vs measured', 'model_only': sorted(set(m['influence']) - measured),
+            # the model DERIVES the influence set (reference closure of the selectable class templates): it must cover what the
+            # implementation is observed to load and depend on
+            if not measured <= set(m['influence']):
+                mism.append({'case': c, 'what': 'influence set: the derived closure misses measured inputs',
                              'impl_only': sorted(measured - set(m['influence']))})
+            stats['derived_influence_total'] += len(set(m['influence']))
+            stats['derived_influence_not_observed'] += len(set(m['influence']) - measured)
+            if set(m['dirs']) != set(md['real']['created_dirs']):
+                mism.append({'case': c, 'what': 'created directories: model vs implementation', 'model': m['dirs'], 'impl': md['real']['created_dirs']})
+            rr = md.get('rerun')
+            if rr is not None:
+                if (m['r_rerun'] == 0) != (rr['rc'] == 0):
+                    mism.append({'case': c, 'what': 'second real run over existing output: model vs implementation', 'model': m['r_rerun'], 'impl': rr})
+                stats['rerun_refused_no_overwrite'] += rr['rc'] != 0
             if not m['consistent']:
                 mism.append({'case': c, 'what': 'packaged support resources are not found by the package support loader (support_consistent)'})
             key = (c['lang'], c['mode'], c['omit'], c['ns_types'] or c['lang'] in ('py', 'html'), bool(c['tpl']), bool(c['sup']),
